@@ -33,8 +33,20 @@ def NT.isPrime (t : NT) (n : Nat) : Bool := n ≥ 2 && n ≤ t.bound && t.piOf n
 def NT.primesIn (t : NT) (lo hi : Nat) : List Nat :=
   (List.range (t.piOf hi - t.piOf lo)).map (fun j => t.p (t.piOf lo + 1 + j))
 
-def isqrtN (x : Nat) : Nat := isqrtLoop x x
-def irootN (n x : Nat) : Nat := irootLoop n x x
+/-- a starting value near 2^(bits/n): the correction loops are correct from EVERY start (PcProofs.Roots),
+    the start only matters for run time. A few Newton steps bring it within a handful of the root. -/
+def rootEstimate (n x : Nat) : Nat :=
+  if x < 2 ∨ n = 0 then x else
+  let r0 := 2 ^ ((Nat.log2 x) / n + 1)
+  let rec newton : Nat → Nat → Nat
+    | 0, r => r
+    | fuel + 1, r =>
+      let r' := ((n - 1) * r + x / r ^ (n - 1)) / n
+      if r' < r then newton fuel r' else r
+  newton 200 r0
+
+def isqrtN (x : Nat) : Nat := isqrtLoop x (rootEstimate 2 x)
+def irootN (n x : Nat) : Nat := irootLoop n x (rootEstimate n x)
 
 /-- φ(x, a) by the Legendre recurrence with the two standard cut-offs -/
 def NT.phi (t : NT) : Nat → Nat → Nat → Nat
